@@ -1,7 +1,11 @@
 (* C15 -- Concurrent calls always complete (no deadlock).
    Locks: I = pending_intents mutex, S = index state RwLock, W = wal mutex; order I < S < W.
    The excluded caller (one that keeps an index read guard alive while writing from the same
-   thread) is not a thread of the model. *)
+   thread) is not a thread of the model.
+   All clauses hold for ARBITRARY fault parameters bad / ckbad of the model (obstructed blob paths,
+   failing checkpoints): the error exits (reverting an uncommitted intent under I, returning from a
+   failed unlink with I released) neither break the lock order nor block anybody, and they only
+   shorten a call (the step bound total_work is unchanged). *)
 From Cas Require Import Conc.
 From CasProofs Require Import ConcInv ConcProofs ConcProgress.
 From CasProps Require Import ConcSetting.
@@ -15,12 +19,12 @@ Print Assumptions C15_lock_order.
 
 (* in every reachable state some unfinished thread can move: no interleaving blocks forever *)
 Theorem C15_deadlock_free :
-  forall H cmp nops thr0 cas0, ConcSetting H cmp thr0 cas0 ->
-  forall g, reachable H cmp nops thr0 cas0 g -> all_finished g = false ->
-    exists t, enabled H cmp nops g t = true.
+  forall H cmp nops bad ckbad thr0 cas0, ConcSetting H cmp thr0 cas0 ->
+  forall g, reachable H cmp nops bad ckbad thr0 cas0 g -> all_finished g = false ->
+    exists t, enabled H cmp nops bad ckbad g t = true.
 Proof.
-  intros H cmp nops thr0 cas0 (A & B & C & D & E & F & G & I).
-  exact (ConcProofs.C15_deadlock_free H cmp A B C D nops thr0 E cas0 F G I).
+  intros H cmp nops bad ckbad thr0 cas0 (A & B & C & D & E & F & G & I).
+  exact (ConcProofs.C15_deadlock_free H cmp A B C D nops bad ckbad thr0 E cas0 F G I).
 Qed.
 Print Assumptions C15_deadlock_free.
 
@@ -29,17 +33,17 @@ Print Assumptions C15_deadlock_free.
 Theorem C15_progress :
   forall H cmp, (forall a, cmp a a = Eq) -> (forall a b, cmp a b = Eq -> a = b) ->
     (forall a b, cmp b a = CompOpp (cmp a b)) -> (forall a b c, cmp a b = Lt -> cmp b c = Lt -> cmp a c = Lt) ->
-  forall nops thr0 cas0 sched,
-    (csteps H cmp nops (init_c thr0 cas0) sched <= total_work thr0 cas0)%nat.
+  forall nops bad ckbad thr0 cas0 sched,
+    (csteps H cmp nops bad ckbad (init_c thr0 cas0) sched <= total_work thr0 cas0)%nat.
 Proof. exact ConcProgress.C15_progress. Qed.
 Print Assumptions C15_progress.
 
 Theorem C15_calls_complete :
-  forall H cmp nops thr0 cas0, ConcSetting H cmp thr0 cas0 ->
-  forall g, reachable H cmp nops thr0 cas0 g ->
-    exists sched, all_finished (crun H cmp nops g sched) = true.
+  forall H cmp nops bad ckbad thr0 cas0, ConcSetting H cmp thr0 cas0 ->
+  forall g, reachable H cmp nops bad ckbad thr0 cas0 g ->
+    exists sched, all_finished (crun H cmp nops bad ckbad g sched) = true.
 Proof.
-  intros H cmp nops thr0 cas0 (A & B & C & D & E & F & G & I).
-  exact (ConcProgress.C15_calls_complete H cmp A B C D nops thr0 E cas0 F G I).
+  intros H cmp nops bad ckbad thr0 cas0 (A & B & C & D & E & F & G & I).
+  exact (ConcProgress.C15_calls_complete H cmp A B C D nops bad ckbad thr0 E cas0 F G I).
 Qed.
 Print Assumptions C15_calls_complete.
